@@ -7,6 +7,7 @@ import (
 	"fmt"
 	"math"
 	"strings"
+	"sync/atomic"
 	"time"
 
 	"github.com/mandykoh/prism/ciexyy"
@@ -550,6 +551,68 @@ func runC12(r *core.Run) {
 			r.RunVariantChild(v, 5*time.Minute, false)
 		}
 		r.Obs("fresh_process_variants", append([]string{"warm@2"}, burstVariants...))
+	}
+	// tens of millions of distinct destination whites (a grid of 2.4e-5 in x and y over [0.25, 0.45]^2,
+	// visited in a scattered order), each adaptation checked on its own white: whatever an
+	// implementation remembers between calls is looked up here with 2^26 different keys (2^30 in the
+	// thorough tier), so a key that identifies a pair only up to 32 bits is bound to confuse two of them
+	{
+		side := 8192
+		if r.Thorough() {
+			side = 32768
+		}
+		total := side * side
+		d65 := ciexyz.Color{X: 0.95047, Y: 1, Z: 1.08883}
+		d50 := ciexyz.Color{X: 0.9642, Y: 1, Z: 0.8251}
+		var bad atomic.Int32
+		shards := 64
+		core.ParallelFor(shards, 16, func(sh int) {
+			for i := sh; i < total && bad.Load() == 0; i += shards {
+				j := int((uint64(i) * 2654435761) % uint64(total)) // scattered, a permutation for odd multipliers of a power-of-two total
+				x := 0.25 + 0.2*float32(j%side)/float32(side)
+				y := 0.25 + 0.2*float32(j/side)/float32(side)
+				w := ciexyz.Color{X: x / y, Y: 1, Z: (1 - x - y) / y}
+				from := d65
+				if i&1 == 1 {
+					from = d50
+				}
+				got := ciexyz.AdaptBetweenXYZWhitePoints(from, w).Apply(from)
+				if !(math.Abs(float64(got.X-w.X)) <= 4e-6*math.Max(1, float64(w.X)) && math.Abs(float64(got.Y-w.Y)) <= 4e-6 && math.Abs(float64(got.Z-w.Z)) <= 4e-6*math.Max(1, float64(w.Z))) {
+					if bad.Add(1) == 1 {
+						r.Violate("pairxyz", "white-xyz/many-pairs", fmt.Sprintf("among %d distinct white pairs: the adaptation %v -> %v maps the source white to %v", total, from, w, got), c12Case{Kind: "white-xyz", XYZ: [][3]float32{{from.X, from.Y, from.Z}, {w.X, w.Y, w.Z}}})
+					}
+				}
+			}
+		})
+		r.AddEvals(int64(total))
+		r.Obs("distinct_white_pairs_in_one_process", total)
+	}
+	// last of all: calls with white points that are no white points (unset, negative, NaN, infinite) -
+	// whatever they return or however they fail - followed by ordinary pairs again: nothing of a
+	// failed or meaningless call may stay behind
+	{
+		nan, inf := float32(math.NaN()), float32(math.Inf(1))
+		d65 := ciexyz.Color{X: 0.95047, Y: 1, Z: 1.08883}
+		var n int64
+		for _, bad := range []ciexyz.Color{{}, {X: nan, Y: 1, Z: 1}, {X: 1, Y: inf, Z: 1}, {X: -1, Y: -1, Z: -1}, {X: 0, Y: 1, Z: 0}, {X: 1e-45, Y: 1e-45, Z: 1e-45}, {X: 3e38, Y: 3e38, Z: 3e38}} {
+			bad := bad
+			_, _ = c12Call(func() ciexyz.ChromaticAdaptation { return ciexyz.AdaptBetweenXYZWhitePoints(bad, d65) })
+			_, _ = c12Call(func() ciexyz.ChromaticAdaptation { return ciexyz.AdaptBetweenXYZWhitePoints(d65, bad) })
+			_, _ = c12Call(func() ciexyz.ChromaticAdaptation {
+				return ciexyz.AdaptBetweenXYYWhitePoints(ciexyy.Color{X: bad.X, Y: bad.Y, YY: bad.Z}, ciexyy.D50)
+			})
+			for _, pr := range [][2][3]float32{{{0.95047, 1, 1.08883}, {0.9642, 1, 0.8251}}, {{0.9642, 1, 0.8251}, {1.0985, 1, 0.35585}}, {{0.8, 0.9, 0.4}, {95.047, 100, 108.883}}} {
+				n++
+				if kind, msg := c12PairXYZ(pr[0], pr[1]); kind != "" {
+					r.Violate("pairxyz", kind+"/after-invalid-white", msg+fmt.Sprintf(" (right after calls with the white %v)", bad), c12Case{Kind: kind, XYZ: [][3]float32{pr[0], pr[1]}})
+				}
+			}
+			n++
+			if kind, msg, _, _ := c12Pair(c12Illuminants["D65"], c12Illuminants["A"]); kind != "" {
+				r.Violate("pair", kind+"/after-invalid-white", msg+fmt.Sprintf(" (right after calls with the white %v)", bad), c12Case{Kind: kind, Whites: [][2]float32{c12Illuminants["D65"], c12Illuminants["A"]}})
+			}
+		}
+		r.AddEvals(n)
 	}
 	ca := ciexyz.AdaptBetweenXYYWhitePoints(ciexyy.D65, ciexyy.D50)
 	r.Sample(map[string]any{"from": "D65", "to": "D50", "matrix_rows": libMat(matrix.Matrix3(ca))})
